@@ -686,7 +686,7 @@ func init() {
 		// top-level statement of that literal (not under an if/switch/for). A Sync that is only conditional gives `false`
 		// (e.g. `if j.Count() > 0 { j.Sync() }`: Count() counts CONFIRMED records, so the first, still buffered write of a new
 		// partition is skipped); no Sync at all is a problem.
-		syncUncond, syncAny := false, false
+		syncUncond, syncAny, visitsAll := false, false, true
 		if fd := funcDecl(fp, "Service", "Shutdown"); fd != nil {
 			isSync := func(n ast.Node) bool {
 				ce, ok := n.(*ast.CallExpr)
@@ -701,26 +701,61 @@ func init() {
 				if !ok {
 					return true
 				}
+				hasSync := false
 				for _, st := range fl.Body.List {
 					if es, ok := st.(*ast.ExprStmt); ok && isSync(es.X) {
 						syncUncond = true
+						hasSync = true
 					}
 				}
 				ast.Inspect(fl.Body, func(m ast.Node) bool {
 					if isSync(m) {
 						syncAny = true
+						hasSync = true
 					}
 					return true
 				})
+				if hasSync {
+					// the visitor must go on to the next journal: every `return` of the literal is the constant `true`
+					ast.Inspect(fl.Body, func(m ast.Node) bool {
+						if _, nested := m.(*ast.FuncLit); nested {
+							return false
+						}
+						if rs, ok := m.(*ast.ReturnStmt); ok {
+							if len(rs.Results) != 1 {
+								visitsAll = false
+							} else if id, ok := rs.Results[0].(*ast.Ident); !ok || id.Name != "true" {
+								visitsAll = false
+							}
+						}
+						return true
+					})
+				}
 				return true
 			})
 			// a plain loop over the journals instead of a visitor
 			ast.Inspect(fd.Body, func(n ast.Node) bool {
 				if rs, ok := n.(*ast.RangeStmt); ok {
+					loopSyncs := false
 					for _, st := range rs.Body.List {
 						if es, ok := st.(*ast.ExprStmt); ok && isSync(es.X) {
-							syncUncond, syncAny = true, true
+							syncUncond, syncAny, loopSyncs = true, true, true
 						}
+					}
+					if loopSyncs {
+						ast.Inspect(rs.Body, func(m ast.Node) bool {
+							switch x := m.(type) {
+							case *ast.FuncLit:
+								return false
+							case *ast.ReturnStmt:
+								visitsAll = false
+							case *ast.BranchStmt:
+								if x.Tok == token.BREAK || x.Tok == token.GOTO {
+									visitsAll = false
+								}
+							}
+							return true
+						})
 					}
 				}
 				return true
@@ -731,8 +766,13 @@ func init() {
 		if !syncAny {
 			problem("partition.Service.Shutdown: no journal Sync() found (the flush of acknowledged writes at a graceful stop)")
 		}
-		l.p("/-- `partition.Service.Shutdown` calls `Sync()` on every journal unconditionally (false: only under a condition, e.g. `Count() > 0`, which skips a journal whose records are all still buffered) -/")
-		l.p("def shutdownSyncsEveryJournal : Bool := %s", leanBool(syncUncond))
+		l.p("/-- `partition.Service.Shutdown` calls `Sync()` on every journal unconditionally and goes on to the next one — every `return` of the visitor is the constant `true`, no `break`/`return` in a plain loop (false: `Sync()` only under a condition, e.g. `Count() > 0`, which skips a journal whose records are all still buffered, or a visit that can stop early) -/")
+		l.p("def shutdownSyncsEveryJournal : Bool := %s", leanBool(syncUncond && visitsAll))
+		qAny, qCopy := c01QueryCacheFacts()
+		l.p("/-- both query loops (api/rpc ServerQuerier.query, pkg/backend Querier.Query) refresh the printed fields whenever the event's fields differ from the cached value: the condition is exactly `<ev>.Fields != V` (false: further conjuncts, e.g. `len(<ev>.Fields) > 0 &&`, make the refresh rarer) -/")
+		l.p("def queryCacheRefreshOnAnyDifference : Bool := %s", leanBool(qAny))
+		l.p("/-- … and the cached value is assigned from a call on the event's fields (`MakeCopy()`), not from the bare `<ev>.Fields`, which aliases the reader's buffer -/")
+		l.p("def queryCacheKeepsCopy : Bool := %s", leanBool(qCopy))
 		l.p("/-- `Service.Write` calls `iw.resetMinMaxTs()` somewhere in its loop -/")
 		l.p("def writeLoopResetsHull : Bool := %s", leanBool(resetCalled))
 		l.write()
